@@ -185,6 +185,17 @@ class Gen:
                 lines.append("#ddrestat")
             sc["sources"][src] = "\n".join(lines + ["// dyndep-served source %d" % i]) + "\n"
             st = St("%s%d" % (tag, i), [out0], ins=[src], dd=True, dyndep=dd, dyndep_on_rule=on_rule)
+            if r.random() < self.f.get("dd_deps", 0.3):
+                # a served statement that also reports what it read (modules through the dyndep file, headers through a depfile):
+                # its own header includes another one, which only the depfile / deps log knows about
+                x = r.random()
+                st["deps"] = "msvc" if x < 0.2 else ("depfile" if x < 0.45 else "gcc")
+                if st["deps"] != "msvc":
+                    st["depfile"] = out0 + ".d"
+                own, nested = "p_%s%d.h" % (tag, i), "q_%s%d.h" % (tag, i)
+                sc["sources"][nested] = "// nested header of %s%d\n" % (tag, i)
+                sc["sources"][own] = "#include %s\n// own header of %s%d\n" % (nested, tag, i)
+                sc["sources"][src] = "#include %s\n" % own + sc["sources"][src]
             if r.random() < 0.5:
                 st["oins"] = [dd]
             else:
